@@ -152,6 +152,36 @@ def binding_inclup(res, rd, tier, pool, rng):
         print("MODEL-BINDING-DIVERGED model=InclUp executions=%d diverged>=%d (evidence only, not a violation)" % (len(items), len(v["fails"])))
 
 
+def bind_model(res, rd, name, model, sample, module, cfg, keep=("A", "B", "mode"), prep=None, timeout_ms=3000):
+    """generic step-level binding: drive `sample` (ops that return res.events starting with a Start event), validate every
+    execution sequentially against the trace spec; evidence only (model_binding + MODEL-BINDING-DIVERGED line)"""
+    import p_hist
+    cf = os.path.join(rd, name + ".cases.ndjson")
+    vlib.write_ndjson(cf, sample)
+    items = []
+    for sh in vlib.drive(cf, os.path.join(rd, name + ".ev"), timeout_ms=timeout_ms):
+        for ev in vlib.read_ndjson(sh):
+            if ev.get("outcome") == "ok" and ev["res"]["events"] and ev["res"]["events"][0].get("e") == "Start":
+                evs = ev["res"]["events"]
+                if prep:
+                    evs = prep(evs)
+                case = {"id": ev.get("id"), "kind": name}
+                for k in keep:
+                    if k in ev:
+                        case[k] = ev[k]
+                items.append((case, evs))
+    mb = res.extra.setdefault("model_binding", {})
+    if not items:
+        mb[model] = "no step events recorded (hook absent?)"
+        return
+    v = p_hist.tlc_validate_seq(module, cfg, items, rd, name, emit_reset=False)
+    res.add_validation(v)
+    mb[model] = {"executions": len(items), "step_events_accepted": v["events"], "diverged": len(v["fails"]),
+                 "first_divergence": ({"case": v["fails"][0][0], "at_event": v["fails"][0][2]} if v["fails"] else None)}
+    if v["fails"]:
+        print("MODEL-BINDING-DIVERGED model=%s executions=%d diverged>=%d (evidence only, not a violation)" % (model, len(items), len(v["fails"])))
+
+
 def agreement_arm(res, rd, tier, seed):
     """oracle-free: millions of seeded random pairs generated inside the driver, all 8 selections per pair; only pairs on
     which the selections disagree (a certain violation of C01) come back, as full 'incl' events that TLC then judges"""
@@ -386,6 +416,12 @@ def check_C03(tier, seed, res, replay=None):
     rng.shuffle(pick)
     cli_cases = [{"id": c["id"], "cmd": rng.choice(["load-p", "load-s"]), "A": c["A"]} for c in pick[:8000 if tier == "thorough" else 1500]]
     cli_arm.judge(res, rd, "c03", cli_arm.ta_op_events(cli_cases, rd), "TraceTA.tla")
+    # step-level binding of the Layer-2 model Trim (hook: Start / Pop in both trimmers)
+    pool = [c for c in cases if c["A"]["rules"] and "premap" not in c]
+    rng.shuffle(pool)
+    sample = [{"id": c["id"], "op": "trimtrace", "mode": rng.choice(["unreach", "useless"]), "A": c["A"], "syms": c.get("syms", [])}
+              for c in pool[:12000 if tier == "thorough" else 2500]]
+    bind_model(res, rd, "bind", "Trim", sample, "TraceTrim.tla", "TraceTrim.cfg")
     # Layer 2: both trimmers as work-list machines with their counters, every automaton of the bound, every pop order
     model_with_mutants(res, "Trim.tla", "Trim4.cfg" if tier == "thorough" else "Trim.cfg",
                        ["SizeCompare", "ArityDecrement", "EarlyExit"] if tier == "thorough" else [], "Trim")
